@@ -75,6 +75,69 @@ Example C04_corrupted_ack_recovered :
                     (mkw (mktgt (Some 0) (TRecv [1]) (Some (mkdep F_ACK 0 None None [])) [] [] [] true) [] 0 w)) = Ok (PDepRes (mkdep F_ACK 0 None None []))).
 Proof. split; [vm_compute; reflexivity|]. split; intro w; reflexivity. Qed.
 
+(* ======== with time-out extension: before each response the target application may call send_timeout_extension up to three
+   times (values 1..59): `ap` gives, per received payload, the RTOX values and the response; `resps ap` are the responses.
+   The three theorems above are the instances ap = app_of R (no extension) of the following two. ======== *)
+
+(* --- safety for EVERY fault script with RTOX rounds interleaved: prefixes, at most one CommunicationError / None, target at
+       most one payload ahead.  In particular the RTOX value octet is never delivered to the target application as a payload
+       and never to the initiator as a response ("never ... foreign data"; the defect repaired by 0d645cb, seeded C04-b2) --- *)
+Theorem C04_dep_safety_rtox : forall b106 lri lrt did nad n fuel script P ap timeout release,
+  did_valid did -> Z.max 0 timeout < Z.of_nat fuel -> rtox_ok ap ->
+  nonempty_all P -> nonempty_all (resps ap) -> fits n P -> fits n (resps ap) -> (length P <= length ap)%nat ->
+  let o := conversation n fuel (mk_icfg b106 lrt did nad) (mk_tcfg b106 lri did) script P ap timeout release in
+  exists j k itail ttail,
+    o_ini o = map IOk (firstn j (resps ap)) ++ itail /\
+    (itail = [] /\ j = length P \/ exists e, itail = [IErr e] /\ comm e /\ (j < length P)%nat) /\
+    o_tgt o = map TOk (firstn k P) ++ ttail /\ tail_ok ttail /\
+    (j <= k <= j + 1)%nat /\ (k <= length P)%nat.
+Proof. intros. apply dep_safety_rtox_thm; try assumption. apply valid_mk; assumption. Qed.
+Print Assumptions C04_dep_safety_rtox.
+
+(* --- exactness with RTOX rounds: (a) fault free; (b) every faulty round followed by two fault free rounds, no response
+       corrupted, exchange time-out >= 60 RWT (one more than the largest RTOX value, which scales the response waiting time):
+       a lost / corrupted RTOX request, a lost RTOX response, a lost information PDU right after the handshake (seeded
+       C04-b2) and every lost / corrupted request or lost response elsewhere are recovered; (c) without extension: every
+       isolated fault.  Exception, by design of NFC-DEP: a CORRUPTED response while extensions are in use is outside (b):
+       the target answers the NAK with its RTOX again and "RTOX response to NACK or ATN" is a ProtocolError - see
+       C04_rtox_corrupted_response_refuted --- *)
+Theorem C04_dep_exact_rtox : forall b106 lri lrt did nad n fuel script P ap timeout release,
+  did_valid did -> Z.max 0 timeout < Z.of_nat fuel -> rtox_ok ap ->
+  ((script = [] /\ 1 <= timeout) \/ (Sparse script /\ NC script /\ 60 <= timeout) \/ (Sparse script /\ 2 <= timeout /\ no_rtox ap)) ->
+  nonempty_all P -> nonempty_all (resps ap) -> fits n P -> fits n (resps ap) -> (length P <= length ap)%nat ->
+  let o := conversation n fuel (mk_icfg b106 lrt did nad) (mk_tcfg b106 lri did) script P ap timeout release in
+  o_ini o = map IOk (firstn (length P) (resps ap)) /\
+  exists ttail, o_tgt o = map TOk P ++ ttail /\ tail_ok ttail.
+Proof. intros. apply dep_exact_rtox_thm; try assumption. apply valid_mk; assumption. Qed.
+Print Assumptions C04_dep_exact_rtox.
+
+(* the exception is genuine (and by design): RTOX response to the last information PDU corrupted -> NAK -> the target
+   retransmits its RTOX -> request_retransmission raises ProtocolError; nothing foreign is delivered.
+   And the fourth extension in a row ends the exchange with TimeoutError ("timeout extension"), the target keeps waiting. *)
+Theorem C04_rtox_corrupted_response_refuted :
+  exists script P ap,
+    Sparse script /\ rtox_ok ap /\ nonempty_all P /\ nonempty_all (resps ap) /\ did_valid None /\
+    o_ini (conversation 50 200 (mk_icfg false 0 None None) (mk_tcfg false 0 None) script P ap 100 (Some true)) = [IErr ProtocolError].
+Proof.
+  exists [(FD, FC); (FD, FD); (FD, FD)], [[1]], [([5], [2])]. vm_compute. repeat split; repeat constructor; try discriminate; auto.
+Qed.
+Print Assumptions C04_rtox_corrupted_response_refuted.
+
+Example C04_rtox_nonvacuous :
+  (* three extensions before the first response, one before the third, lost RTOX request, lost RTOX response, lost information
+     PDU right after the handshake: exact *)
+  let P := [repeat 1 70; [2]; [3; 3]] in
+  let ap := [([5; 1; 59], repeat 17 125); ([], [18]); ([2], [19])] in
+  let o := conversation 200 200 (mk_icfg true 0 (Some 5) None) (mk_tcfg true 0 (Some 5))
+             [(FD, FD); (FD, FD); (FL, FD); (FD, FD); (FD, FD); (FD, FL); (FD, FD); (FD, FD); (FD, FD); (FD, FD); (FD, FD); (FD, FL)]
+             P ap 100 (Some true) in
+  o_ini o = map IOk (resps ap) /\ o_tgt o = map TOk P ++ [TNone] /\ rtox_ok ap /\
+  Sparse [(FD, FD); (FD, FD); (FL, FD); (FD, FD); (FD, FD); (FD, FL); (FD, FD); (FD, FD); (FD, FD); (FD, FD); (FD, FD); (FD, FL); (FD, FD); (FD, FD)] /\
+  (* a fourth extension in a row: TimeoutError, and the payload was delivered exactly once *)
+  (let o4 := conversation 200 200 (mk_icfg false 0 None None) (mk_tcfg false 0 None) [] [[1]] [([1; 1; 1; 1], [2])] 100 (Some true) in
+   o_ini o4 = [IErr TimeoutError] /\ o_tgt o4 = [TOk [1]]).
+Proof. vm_compute. repeat split; repeat constructor; try discriminate; auto. Qed.
+
 (* --- one protocol step (send_dep_req_recv_dep_res) under every script: it fails, or it returns exactly the
        response the target produced when it accepted the request; the target accepts the request at most once --- *)
 Theorem C04_step_safe : forall ic tc, valid_cfg ic tc ->
